@@ -113,6 +113,11 @@ let refine_law sch (h : heap) (o : op) (h' : heap) (r : pval) : unit =
     if not (tidyb sch h') then failwith "law C08.tidy_preserved fails"
   end
 
+(* further statements evaluated on every step when [laws] is on, registered by evaluators linked after this one
+   (reflectviewprog_eval.ml: the statements of Model/ReflectViewProg.v); arguments: schema, heap before the step, operation,
+   the results so far and their number *)
+let extra_step_laws : (schema -> heap -> op -> pval array -> int -> unit) list ref = ref []
+
 (* [stepf]: how one operation (given also as its text) is executed (Reflect.step; the reflectprog evaluator passes the interpreter of the translated methods);
    [laws]: evaluate the statements about Reflect.step on every step *)
 let run_hist_gen (stepf : string -> schema -> heap -> op -> heap * pval) (laws : bool) sch (h0 : heap) (outs0 : pval list) (root : nat option) (ops : string) : string =
@@ -135,7 +140,8 @@ let run_hist_gen (stepf : string -> schema -> heap -> op -> heap * pval) (laws :
       Driver.law "C08.rp_heap_ok_kept" (rp_heap_okb sch !h && rp_heap_ok_kept_law sch !h o);
       (match words s, o with
        | [ "rstop"; _; k ], ORange (PMsg (m, p)) -> Driver.law "C08.range_stop_prog" (range_stop_law sch !h m p (nat_of_int (int_of_string k)))
-       | _ -> ())
+       | _ -> ());
+      List.iter (fun f -> f sch !h o outs !n) !extra_step_laws
       end;
       (* rstop / mrstop: a Range whose callback returns false at once makes exactly one callback when anything is populated *)
       let stop = (match words s with [ ("rstop" | "mrstop"); _; n ] -> Some (int_of_string n) | _ -> None) in
